@@ -19,7 +19,7 @@ import (
 
 // HPred mirrors hpred.
 type HPred struct {
-	K   string  `json:"k"` // all ids mod val or and not
+	K   string  `json:"k"` // all ids key mod val or and not (key: one id, given as the key of the model value)
 	IDs []int64 `json:"ids,omitempty"`
 	A   int64   `json:"a,omitempty"`
 	B   int64   `json:"b,omitempty"`
@@ -52,7 +52,7 @@ func (p *HPred) sql() string {
 	switch p.K {
 	case "all":
 		return "1 = 1"
-	case "ids":
+	case "ids", "key":
 		parts := []string{}
 		for _, i := range p.IDs {
 			parts = append(parts, fmt.Sprint(i))
@@ -93,7 +93,7 @@ func (p *HPred) g() string {
 	switch p.K {
 	case "all":
 		return "HAll"
-	case "ids":
+	case "ids", "key":
 		return lib.App("HIds", lib.ZList(p.IDs))
 	case "mod":
 		return lib.App("HMod", lib.Z(p.A), lib.Z(p.B))
@@ -143,7 +143,12 @@ func genHPred(r *lib.Rng, depth int, ids []int64) *HPred {
 		}
 		return p
 	}
-	switch r.Intn(5) {
+	switch r.Intn(6) {
+	case 5:
+		if depth == 2 { // top level only: the condition is the key of the model value
+			return &HPred{K: "key", IDs: []int64{lib.Pick(r, ids)}}
+		}
+		return &HPred{K: "ids", IDs: []int64{lib.Pick(r, ids)}}
 	case 0:
 		return &HPred{K: "all"}
 	case 1, 2:
@@ -176,7 +181,11 @@ func genHist(r *lib.Rng, rows []Row) []HOp {
 			ids = append(ids, next)
 			next++
 		case 1, 2, 3:
-			ops = append(ops, HOp{K: "delete", P: genHPred(r, 2, ids), T: int64(k)})
+			p := genHPred(r, 2, ids)
+			ops = append(ops, HOp{K: "delete", P: p, T: int64(k)})
+			if r.Chance(1, 3) { // the same Delete once more, later: nothing may change
+				ops = append(ops, HOp{K: "delete", P: p, T: int64(k + 20)})
+			}
 		case 4:
 			ops = append(ops, HOp{K: "udelete", P: genHPred(r, 1, ids)})
 		case 5, 6:
@@ -253,11 +262,26 @@ func (e *env) runHist(in Input, o *Obs) {
 			fail("create", r.Error)
 			ob = []int64{r.RowsAffected}
 		case "delete", "udelete":
-			r := op.P.apply(base).Delete(whr.NewSoftOne(in.Variant))
+			var r *gorm.DB
+			if op.P.K == "key" {
+				// the record is named by the Model value, the value given to Delete is empty
+				m := whr.NewSoftOne(in.Variant)
+				reflect.ValueOf(m).Elem().FieldByName("ID").SetInt(op.P.IDs[0])
+				r = base.Model(m).Delete(whr.NewSoftOne(in.Variant))
+			} else {
+				r = op.P.apply(base).Delete(whr.NewSoftOne(in.Variant))
+			}
 			fail(op.K, r.Error)
 			ob = []int64{r.RowsAffected}
 		case "update", "uupdate":
-			r := op.P.apply(base).Model(whr.NewSoftOne(in.Variant)).Update("mark", op.V)
+			var r *gorm.DB
+			if op.P.K == "key" {
+				m := whr.NewSoftOne(in.Variant)
+				reflect.ValueOf(m).Elem().FieldByName("ID").SetInt(op.P.IDs[0])
+				r = base.Model(m).Update("mark", op.V)
+			} else {
+				r = op.P.apply(base).Model(whr.NewSoftOne(in.Variant)).Update("mark", op.V)
+			}
 			fail(op.K, r.Error)
 			ob = []int64{r.RowsAffected}
 		default:
